@@ -25,15 +25,16 @@ import (
 	"github.com/imroc/req/v3/verifharness/hk"
 )
 
+// the caller's headers the chains play with: net/http's four sensitive ones and a plain one
+var c11Hdr = []string{"Authorization", "Www-Authenticate", "Cookie", "Cookie2", "X-Token"}
+var c11HdrCoq = []string{"hAuth", "hWww", "hCookie", "hCookie2", "hToken"} // constants of Model/C11Run.v
+var c11Sensitive = map[string]bool{"Authorization": true, "Www-Authenticate": true, "Cookie": true, "Cookie2": true}
+
 type c11Hit struct {
-	Host    string `json:"host"`
-	Auth    int    `json:"auth"`   // number of Authorization values received
-	Cookie  int    `json:"cookie"` // number of Cookie values received
-	WWWAuth int    `json:"wwwauth"`
-	Cookie2 int    `json:"cookie2"`
-	Plain   int    `json:"plain"` // X-Token, not a sensitive header
-	Method  string `json:"method"`
-	Body    int    `json:"body"`
+	Host   string `json:"host"`
+	H      [5]int `json:"headers"` // number of values received of each of c11Hdr
+	Method string `json:"method"`
+	Body   int    `json:"body"`
 }
 
 type c11Gate struct{ arrived, release chan struct{} }
@@ -59,9 +60,11 @@ func newC11Origin() (*c11Origin, error) {
 		body, _ := io.ReadAll(q.Body)
 		o.mu.Lock()
 		step := len(o.hits[id])
-		o.hits[id] = append(o.hits[id], c11Hit{Host: q.Host, Auth: len(q.Header.Values("Authorization")), Cookie: len(q.Header.Values("Cookie")),
-			WWWAuth: len(q.Header.Values("Www-Authenticate")), Cookie2: len(q.Header.Values("Cookie2")), Plain: len(q.Header.Values("X-Token")),
-			Method: q.Method, Body: len(body)})
+		hit := c11Hit{Host: q.Host, Method: q.Method, Body: len(body)}
+		for k, n := range c11Hdr {
+			hit.H[k] = len(q.Header.Values(n))
+		}
+		o.hits[id] = append(o.hits[id], hit)
 		sc := o.scripts[id]
 		o.mu.Unlock()
 		if sc != nil && sc.gate != nil {
@@ -104,8 +107,7 @@ type polSpec struct {
 	coq     string                                   // Coq constructor application, no outer parens
 	mk      func() req.RedirectPolicy                // the real policy value (nil entry allowed)
 	permit  func(t authority, via []authority) bool  // independent oracle; nil = never refuses
-	alwaysA bool                                     // AlwaysCopy names Authorization
-	alwaysC bool                                     // AlwaysCopy names Cookie
+	always  map[string]bool                          // canonical header names an AlwaysCopy policy re-adds
 	limit   int                                      // >= 0 for hop limits (directs the hop count), else -1
 }
 
@@ -155,17 +157,18 @@ func specAllowed(domain bool, as []authority) polSpec {
 }
 
 func specAlwaysCopy(rng *hk.Rand) polSpec {
-	var names []string
-	a, ck := rng.Bool(), rng.Bool()
-	if a {
-		names = append(names, hk.Pick(rng, []string{"Authorization", "authorization"}))
+	var names, canon []string
+	always := map[string]bool{}
+	for _, n := range []string{"Authorization", "authorization", "Cookie", "COOKIE", "Www-Authenticate", "cookie2", "X-Token", "X-Unrelated"} {
+		if rng.Chance(30) {
+			names = append(names, n)
+			c := http.CanonicalHeaderKey(n)
+			canon = append(canon, hk.CoqStr(c))
+			always[c] = true
+		}
 	}
-	if ck {
-		names = append(names, "Cookie")
-	}
-	names = append(names, "X-Unrelated")
-	return polSpec{coq: "PAlwaysCopy " + hk.CoqBool(a) + " " + hk.CoqBool(ck), mk: func() req.RedirectPolicy { return req.AlwaysCopyHeaderRedirectPolicy(names...) },
-		alwaysA: a, alwaysC: ck, limit: -1}
+	return polSpec{coq: "PAlwaysCopy " + hk.CoqList(canon), mk: func() req.RedirectPolicy { return req.AlwaysCopyHeaderRedirectPolicy(names...) },
+		always: always, limit: -1}
 }
 
 func specNil() polSpec {
@@ -245,7 +248,36 @@ type c11Plan struct {
 	status     []int
 	method     string
 	body       string
-	cred       int // 0 request-level Authorization+Cookie, 1 client-level, 2 client-level helpers, 3 request level + Www-Authenticate/Cookie2
+	cred       int    // where Authorization and Cookie are set: 0 on the request, 1 client-level common headers, 2 client-level helpers
+	hdr        [5]int // number of values of each of c11Hdr on the first request
+}
+
+// genHdr draws the caller's header set: any subset of the sensitive headers, one or two values each
+func genHdr(rng *hk.Rand, p *c11Plan, credChoices []int) {
+	p.cred = hk.Pick(rng, credChoices)
+	for k := range c11Hdr {
+		switch x := rng.Intn(10); {
+		case x < 3:
+			p.hdr[k] = 0
+		case x < 9:
+			p.hdr[k] = 1
+		default:
+			p.hdr[k] = 2
+		}
+	}
+	if p.cred != 0 {
+		p.hdr[0], p.hdr[2] = 1, 1 // the client-level setters give one Authorization and one Cookie
+	}
+}
+
+func (p c11Plan) coqHdr() string { return coqHdrs(p.hdr) }
+
+func coqHdrs(h [5]int) string {
+	var xs []string
+	for k := range c11Hdr {
+		xs = append(xs, hk.CoqPair(c11HdrCoq[k], hk.CoqNat(h[k])))
+	}
+	return hk.CoqList(xs)
 }
 
 func noZone(rng *hk.Rand, f func() authority) authority {
@@ -326,7 +358,7 @@ func genPlan(rng *hk.Rand, init authority, hops int, others []authority, friendl
 }
 
 func (p c11Plan) desc() map[string]interface{} {
-	return map[string]interface{}{"init": p.init.render(), "targets": p.targets, "location": p.loc, "status": p.status, "method": p.method, "cred": p.cred}
+	return map[string]interface{}{"init": p.init.render(), "targets": p.targets, "location": p.loc, "status": p.status, "method": p.method, "cred": p.cred, "headers": p.hdr}
 }
 
 type c11Result struct {
@@ -340,13 +372,19 @@ func runChain(o *c11Origin, c *req.Client, id string, p c11Plan, gate *c11Gate) 
 	o.mu.Lock()
 	o.scripts[id] = &c11Script{loc: p.loc, status: p.status, gate: gate}
 	o.mu.Unlock()
-	rq := c.R().SetHeader("X-Chain", id).SetHeader("X-Token", "tok")
-	switch p.cred {
-	case 0:
-		rq.SetHeader("Authorization", "Bearer secret").SetHeader("Cookie", "sid=secret")
-	case 3:
-		rq.SetHeader("Authorization", "Bearer secret").SetHeader("Cookie", "sid=secret").
-			SetHeader("Www-Authenticate", "Basic realm=x").SetHeader("Cookie2", "$Version=1")
+	rq := c.R().SetHeader("X-Chain", id)
+	vals := [][2]string{{"Bearer secret", "Bearer second"}, {"Basic realm=x", "Basic realm=y"}, {"sid=secret", "lang=en"}, {"$Version=1", "$Version=2"}, {"tok", "tok2"}}
+	for k, n := range c11Hdr {
+		if p.cred != 0 && (k == 0 || k == 2) {
+			continue // set at client level
+		}
+		for v := 0; v < p.hdr[k]; v++ {
+			if v == 0 {
+				rq.SetHeader(n, vals[k][0])
+			} else {
+				rq.Headers.Add(n, vals[k][v])
+			}
+		}
 	}
 	var resp *req.Response
 	var err error
@@ -420,10 +458,15 @@ func judgeChain(r *hk.Run, kind string, specs []polSpec, p c11Plan, res c11Resul
 	}
 	// headers: Go's cross-origin rule, sticky; AlwaysCopy re-adds what it names; never duplicated;
 	// a non-sensitive header always travels; Go's method rewriting
-	alwaysA, alwaysC := false, false
+	always := map[string]bool{}
 	for _, s := range specs {
-		alwaysA = alwaysA || s.alwaysA
-		alwaysC = alwaysC || s.alwaysC
+		for n := range s.always {
+			always[n] = true
+		}
+	}
+	if obs[0].H != p.hdr {
+		r.Fail(hk.Failure{Sig: kind + ":first-request-headers", What: "the first request does not carry the caller's headers as given", Input: input, Got: obs[0].H, Want: p.hdr})
+		return
 	}
 	ih := urlHostname(p.init.render())
 	stripped := false
@@ -436,28 +479,30 @@ func judgeChain(r *hk.Run, kind string, specs []polSpec, p c11Plan, res c11Resul
 		if p.targets[k-1] != p.init.render() && !(th == ih || (!strings.ContainsAny(th, ":%") && strings.HasSuffix(th, "."+ih))) {
 			stripped = true
 		}
-		wantA, wantC, wantS := 1, 1, 1
+		var want [5]int
+		for j, n := range c11Hdr {
+			want[j] = p.hdr[j]
+			if c11Sensitive[n] && stripped && !always[n] {
+				want[j] = 0
+			}
+		}
 		if stripped {
-			wantS = 0
-			if !alwaysA {
-				wantA = 0
+			r.Count("hop.left-initial-domain")
+			for j, n := range c11Hdr {
+				if c11Sensitive[n] && p.hdr[j] > 0 {
+					if always[n] {
+						r.Count("hop.sensitive-restored-by-alwayscopy")
+					} else {
+						r.Count("hop.sensitive-withheld")
+					}
+				}
 			}
-			if !alwaysC {
-				wantC = 0
-			}
+		} else {
+			r.Count("hop.within-initial-domain")
 		}
-		if h.Auth != wantA || h.Cookie != wantC {
-			r.Fail(hk.Failure{Sig: fmt.Sprintf("%s:sensitive-headers:hop%d", kind, k), What: "Authorization/Cookie delivered (or withheld/duplicated) contrary to the cross-origin rule and the AlwaysCopy policy",
-				Input: input, Got: []int{h.Auth, h.Cookie}, Want: []int{wantA, wantC}})
-			break
-		}
-		if p.cred == 3 && (h.WWWAuth != wantS || h.Cookie2 != wantS) {
-			r.Fail(hk.Failure{Sig: fmt.Sprintf("%s:sensitive-headers2:hop%d", kind, k), What: "Www-Authenticate/Cookie2 delivered (or withheld) contrary to the cross-origin rule",
-				Input: input, Got: []int{h.WWWAuth, h.Cookie2}, Want: []int{wantS, wantS}})
-			break
-		}
-		if h.Plain != 1 {
-			r.Fail(hk.Failure{Sig: fmt.Sprintf("%s:plain-header:hop%d", kind, k), What: "a non-sensitive request header was not carried to a followed hop exactly once", Input: input, Got: h.Plain, Want: 1})
+		if h.H != want {
+			r.Fail(hk.Failure{Sig: fmt.Sprintf("%s:headers:hop%d", kind, k), What: "headers delivered to a followed hop (Authorization, Www-Authenticate, Cookie, Cookie2, X-Token) differ from Go's cross-origin rule + the AlwaysCopy policies: sensitive ones only while the chain stays with the initial host or its subdomains unless named by AlwaysCopy, never duplicated, the others always",
+				Input: input, Got: h.H, Want: want})
 			break
 		}
 		// net/http redirectBehavior: 301/302/303 turn anything but GET/HEAD into GET and drop the body;
@@ -482,7 +527,7 @@ func judgeChain(r *hk.Run, kind string, specs []polSpec, p c11Plan, res c11Resul
 func coqObs(obs []c11Hit) string {
 	var xs []string
 	for _, h := range obs {
-		xs = append(xs, hk.CoqPair(hk.CoqStr(h.Host), hk.CoqPair(hk.CoqNat(h.Auth), hk.CoqNat(h.Cookie))))
+		xs = append(xs, hk.CoqPair(hk.CoqStr(h.Host), coqHdrs(h.H)))
 	}
 	return hk.CoqList(xs)
 }
@@ -515,7 +560,7 @@ func c11Single(r *hk.Run, rng *hk.Rand, o *c11Origin, n int) {
 		if len(specs) > 1 && rng.Bool() {
 			specs[0], specs[len(specs)-1] = specs[len(specs)-1], specs[0]
 		}
-		p.cred = rng.Intn(4)
+		genHdr(rng, &p, []int{0, 0, 1, 2})
 		c := req.C().SetRedirectPolicy(specsMk(specs)...).SetDial(o.dial)
 		applyClientCreds(c, p.cred)
 		res := runChain(o, c, fmt.Sprintf("s%d", i), p, nil)
@@ -532,7 +577,7 @@ func c11Single(r *hk.Run, rng *hk.Rand, o *c11Origin, n int) {
 		if lim := specsLimit(specs); lim >= 0 {
 			r.Count(fmt.Sprintf("chain.hops-limit=%+d", len(p.targets)-lim))
 		}
-		r.Add(hk.Case{Coq: fmt.Sprintf("ChainCase %s %s %s %s %s", coqPs, hk.CoqStr(p.init.render()), hk.CoqStrList(p.targets), coqObs(res.obs), hk.CoqBool(res.refused)),
+		r.Add(hk.Case{Coq: fmt.Sprintf("ChainCase %s %s %s %s %s %s", coqPs, hk.CoqStr(p.init.render()), p.coqHdr(), hk.CoqStrList(p.targets), coqObs(res.obs), hk.CoqBool(res.refused)),
 			Desc: map[string]interface{}{"kind": "chain", "policies": plain, "plan": p.desc(), "observed": res.obs, "refused": res.refused}},
 			"c|"+strings.Join(plain, ",")+"|"+p.init.render()+"|"+strings.Join(p.targets, ","), len(p.targets) >= 2)
 	}
@@ -609,14 +654,14 @@ func c11Clients(r *hk.Run, rng *hk.Rand, o *c11Origin, n int) {
 				init = pool[rng.Intn(len(pool))]
 			}
 			p := genPlan(rng, init, hopsFor(rng, specsLimit(world[k].specs)), pool, rng.Bool())
-			p.cred = hk.Pick(rng, []int{0, 0, 3})
+			genHdr(rng, &p, []int{0})
 			res := runChain(o, world[k].c, fmt.Sprintf("q%d.%d", i, nDo), p, nil)
 			nDo++
 			_, plain := specsCoq(world[k].specs)
 			opsDesc = append(opsDesc, fmt.Sprintf("c%d: %s http://%s/start -> %s", k, p.method, p.init.render(), strings.Join(p.loc, " -> ")))
 			in := map[string]interface{}{"ops": append([]string(nil), opsDesc...), "client": k, "policies-of-that-client": plain, "plan": p.desc()}
 			judgeChain(r, "client", world[k].specs, p, res, in)
-			ops = append(ops, fmt.Sprintf("ODo %s %s %s", hk.CoqNat(k), hk.CoqStr(p.init.render()), hk.CoqStrList(p.targets)))
+			ops = append(ops, fmt.Sprintf("ODo %s %s %s %s", hk.CoqNat(k), hk.CoqStr(p.init.render()), p.coqHdr(), hk.CoqStrList(p.targets)))
 			coqOuts = append(coqOuts, hk.CoqPair(coqObs(res.obs), hk.CoqBool(res.refused)))
 			r.Count(fmt.Sprintf("client.do.sent=%d", len(res.obs)))
 			r.Count(fmt.Sprintf("client.do.refused=%v", res.refused))
@@ -709,7 +754,7 @@ func c11Concurrent(r *hk.Run, rng *hk.Rand, o *c11Origin, n int) {
 		var chains []*chain
 		for j := 0; j < m; j++ {
 			p := genPlan(rng, inits[j], 1+hopsFor(rng, specsLimit(specs)), inits, true)
-			p.cred = hk.Pick(rng, []int{0, 3})
+			genHdr(rng, &p, []int{0})
 			ch := &chain{id: fmt.Sprintf("g%d.%d", i, j), p: p, gate: &c11Gate{arrived: make(chan struct{}, 64), release: make(chan struct{}, 64)}, done: make(chan c11Result, 1)}
 			chains = append(chains, ch)
 		}
@@ -776,7 +821,7 @@ func c11Concurrent(r *hk.Run, rng *hk.Rand, o *c11Origin, n int) {
 			res := *results[j]
 			in := map[string]interface{}{"policies": plain, "chains": planDesc, "schedule": sched, "chain": j}
 			judgeChain(r, "conc", specs, ch.p, res, in)
-			coqChains = append(coqChains, hk.CoqPair(hk.CoqStr(ch.p.init.render()), hk.CoqStrList(ch.p.targets)))
+			coqChains = append(coqChains, "("+hk.CoqStr(ch.p.init.render())+", "+ch.p.coqHdr()+", "+hk.CoqStrList(ch.p.targets)+")")
 			coqOuts = append(coqOuts, hk.CoqPair(coqObs(res.obs), hk.CoqBool(res.refused)))
 			keyParts = append(keyParts, ch.p.init.render()+">"+strings.Join(ch.p.targets, ","))
 			if len(ch.p.targets) >= 1 {
